@@ -17,6 +17,17 @@ const (
 	CollectionNameSnapshot        = "-_-Snapshots"
 )
 
+// IsReservedCollectionName tells whether the name is the name of one of the internal collections of Orda,
+// which is never available as the name of a user collection.
+func IsReservedCollectionName(name string) bool {
+	switch name {
+	case CollectionNameColNumGenerator, CollectionNameClients, CollectionNameCollections,
+		CollectionNameDatatypes, CollectionNameOperations, CollectionNameSnapshot:
+		return true
+	}
+	return false
+}
+
 const (
 	// ID is an identifier of MongoDB
 	ID = "_id"
